@@ -1,4 +1,4 @@
-import NeumannModel.Rel.RollbackLemmas
+import NeumannModel.Rel.BinSearchLemmas
 /-
   C04 — property theorems, part 2: index lookups return exactly the matching rows WHATEVER THE ORDER of the row
   ids inside a bucket and whatever history produced it.
@@ -71,6 +71,14 @@ theorem tree_range_lookup_is_permutation (ix : Idx OKey) (op : RangeOp) (v : Val
     ((tryIndexLookupT t c = none ∧ tryIndexLookup t c = none) ∨
      ∃ ids' ids, tryIndexLookupT t c = some ids' ∧ tryIndexLookup t c = some ids ∧ ids'.Perm ids) :=
   ⟨rangeLookupTree_perm ix op v, tryIndexLookupT_perm t c⟩
+
+/-- the model's B-tree keys are the map's keys: `OrderedKey`'s `Ord` calls two keys equal exactly when their
+    `OKey`s are equal (both float zeros one key, all NaNs one key -- by construction of `ordKey`), so grouping the
+    entries by `OKey` is grouping them by `BTreeMap` key -/
+theorem btree_keys_are_ord_classes (a b : OKey) : OKey.cmp a b = .eq ↔ a = b :=
+  okey_cmp_eq_iff a b
+
+example : ordKey (.float 0) = ordKey (.float 9223372036854775808) ∧ ordKey (.float 0) ≠ ordKey (.float 1) := by decide
 
 example : rangeLookupTree [(.int 5, 1), (.int 2, 2), (.int 5, 3), (.int 2, 4)] .ge (.int 0) = [2, 4, 1, 3] ∧
     rangeLookup [(.int 5, 1), (.int 2, 2), (.int 5, 3), (.int 2, 4)] .ge (.int 0) = [1, 2, 3, 4] := by decide
@@ -233,6 +241,46 @@ theorem narrowing_by_binary_search_loses_rows_witness :
     selectNarrow binSearch (run moveSchema moveOps1) moveQuery = [1] ∧
     selectNarrow binSearch (run moveSchema moveOpsLate) moveQuery = [1, 2, 3, 4] := by
   decide
+
+/-- **`binary_search` is membership exactly when the vector is ascending**: the loop of
+    `core::slice::binary_search_by` finds `x` in a strictly ascending list iff `x` is a member -/
+theorem binary_search_is_membership_on_ascending (l : List Nat) (hs : StrictAsc l) (x : Nat) :
+    binSearch l x = l.contains x :=
+  binSearch_eq_contains l hs x
+
+example : StrictAsc [1, 2, 5, 9] ∧ binSearch [1, 2, 5, 9] 5 = true ∧ binSearch [1, 2, 5, 9] 4 = false := by
+  refine ⟨by unfold StrictAsc; decide, by decide, by decide⟩
+/-- ... and not otherwise -/
+example : binSearch [3, 4, 1, 2] 3 = false ∧ [3, 4, 1, 2].contains 3 = true := by decide
+
+/-- **what the binary-search narrowing needs to go wrong is an UPDATE (or a rollback)**: in every history of
+    inserts, batch inserts, deletes and index creations / drops -- no UPDATE -- every id vector of every index is
+    in ascending id order (new ids are the largest, `create_index` scans in id order, removing keeps the order),
+    and the binary-search narrowing then returns exactly the matching rows.  So insert-only tests, tests that
+    delete, and tests that build their indexes last all pass with it; `narrowing_by_binary_search_loses_rows_witness`
+    has one UPDATE, `rollback_reorders_bucket_witness` one rolled-back DELETE -/
+theorem binary_search_narrowing_sound_without_updates (schema : List (ColType × Bool)) (ops : List Op)
+    (hno : ∀ op ∈ ops, op.isUpdate = false) (c : Cond) :
+    let t := run schema ops
+    (∀ col ix k, (col, ix) ∈ t.hidx → StrictAsc (bucketOf ix k)) ∧
+    (∀ col ix k, (col, ix) ∈ t.oidx → StrictAsc (bucketOf ix k)) ∧
+    selectNarrow binSearch t c = spec t c ∧ countNarrow binSearch t c = (spec t c).length := by
+  intro t
+  have hs : SortedInv t := run_sorted schema ops hno
+  have he := narrow_bin_eq_contains t hs
+  obtain ⟨h1, h2⟩ := narrowing_by_membership_is_sound schema ops c
+  refine ⟨fun col ix k hm => sortedIdx_bucket ix (hs.1 col ix hm) k,
+    fun col ix k hm => sortedIdx_bucket ix (hs.2 col ix hm) k, ?_, ?_⟩
+  · rw [← h1]; unfold selectNarrow; rw [he c]
+  · rw [← h2]; unfold countNarrow; rw [he c]
+
+/-- a history without UPDATE: inserts, a delete in the middle, a batch, indexes before and after -/
+def noUpdateOps : List Op :=
+  [.createHash (.col 0), .insert [.int 1, .int 3], .insert [.int 0, .int 3], .insert [.int 1, .int 3],
+   .createHash (.col 1), .delete (.eq .id (.int 2)), .batchInsert [[.int 1, .int 3], [.int 1, .int 4]],
+   .dropHash (.col 0), .createHash (.col 0)]
+example : ∀ op ∈ noUpdateOps, op.isUpdate = false := by decide
+example : tryIndexLookupNarrow binSearch (run moveSchema noUpdateOps) moveQuery = some [1, 3, 4] := by decide
 
 /-! ### histories with rolled-back statements (`begin_transaction; tx_delete / tx_update; rollback`) -/
 
